@@ -25,12 +25,16 @@ def run_history(inp):
     try:
         A, _ = U.build(inp["init"])
     except Exception as e:
+        if U.exc_name(e) in ("Timeout", "CallTimeout"):
+            raise
         return {"steps": [{"err": U.exc_name(e)}]}
     steps.append(U.views(A))
     for op in inp["ops"]:
         try:
             A = U.apply_op(A, op)
         except Exception as e:
+            if U.exc_name(e) in ("Timeout", "CallTimeout"):
+                raise
             steps.append({"err": U.exc_name(e)})
             break
         steps.append(U.views(A))
